@@ -40,17 +40,33 @@ func C15(c *Ctx) {
 	wc := load.FuncDecl(bp, "builder", "writeCharClassMatcher")
 	okEmit := false
 	if wc != nil {
+		// on the normalised paths of the writer (locals read as their values): the table is computed exactly on the
+		// paths that hold b.basicLatinLookupTable, from the node's own three member lists and flag
 		param := wc.Type.Params.List[0].Names[0].Name
-		for _, ce := range callsIn(wc.Body) {
-			if callName(ce) == "BasicLatinLookup" {
-				gs := guardsOf(wc.Body, ce.Pos())
-				args := []string{}
-				for _, a := range ce.Args {
-					args = append(args, nospace(a))
+		rv := recvName(wc)
+		want := "BasicLatinLookup(" + param + ".Chars," + param + ".Ranges," + param + ".UnicodeClasses," + param + ".IgnoreCase)"
+		paths := c.builderNorm().without("BasicLatinLookup").normPaths(wc)
+		okEmit = len(paths) > 0
+		sawTable := false
+		for _, p := range paths {
+			has := false
+			for _, e := range p {
+				if (e.Kind == "call" || e.Kind == "ccall") && strings.HasPrefix(e.Text, "BasicLatinLookup(") {
+					has = true
+					if e.Text != want {
+						okEmit = false
+					}
 				}
-				okEmit = len(gs) == 1 && gs[0] == "b.basicLatinLookupTable" && strings.Join(args, ",") == param+".Chars,"+param+".Ranges,"+param+".UnicodeClasses,"+param+".IgnoreCase"
+			}
+			if has {
+				sawTable = true
+			}
+			// (a path that ends before the flag is consulted - the nil node - emits no table)
+			if has != p.holds(rv+".basicLatinLookupTable") {
+				okEmit = false
 			}
 		}
+		okEmit = okEmit && sawTable
 	}
 	// the members the general path tests are the node's own lists: table and emitted lists come from the same fields
 	builderPairingN(c, "C15-c", "writeCharClassMatcher")
